@@ -83,7 +83,7 @@ class Env:
             if kind == "table":
                 self.src[k] = P.Table(name, alias=alias or None, schema=schema or None)
         self.src["T1f"] = P.Table("t1").for_(P.SYSTEM_TIME.as_of("2020-01-01"))
-        self.src["Q6"] = Q.from_(P.Table("t6")).select("a", "b").as_("q6")
+        self.src["Q6"] = Q.from_(P.Table("t6")).select("a", "b", "c").as_("q6")
         self.src["C7"] = P.AliasedQuery("c7")
 
     def term(self, t):
@@ -123,10 +123,21 @@ class Env:
             r = self.term(t["a"]).between(self.term(t["lo"]), self.term(t["hi"]))
         elif k == "call":
             args = [self.term(x) for x in t["args"]]
-            cls = {"SUM": fn.Sum, "MAX": fn.Max, "COUNT": fn.Count, "UPPER": fn.Upper, "COALESCE": fn.Coalesce}.get(t["f"])
+            cls = {"SUM": fn.Sum, "MAX": fn.Max, "COUNT": fn.Count, "UPPER": fn.Upper, "COALESCE": fn.Coalesce, "ABS": fn.Abs}.get(t["f"])
+            if t["f"] == "COUNT" and not args:
+                args = ["*"]
             r = cls(*args) if cls else Function(t["f"], *args)
         elif k == "case":
             r = P.Case().when(self.term(t["w"]), self.term(t["t"])).else_(self.term(t["e"]))
+        elif k == "win":
+            from pypika_tortoise import analytics as an
+
+            f = {"SUM": an.Sum, "ROW_NUMBER": lambda: an.RowNumber()}[t["f"]]
+            r = f(*[self.term(x) for x in t["args"]])
+            if t["part"]:
+                r = r.over(*[self.term(x) for x in t["part"]])
+            for x in t["ord"]:
+                r = r.orderby(self.term(x))
         elif k == "ext":
             r = EXT[t["cls"]](self)
         else:
